@@ -84,6 +84,15 @@ func ParseString(input string) (String, error) {
 			continue
 		}
 		out = append(out, replacer.Replace(input[start:i])...)
+		if code >= 0xD800 && code <= 0xDBFF && i+11 < len(input) && input[i+6] == '\\' && input[i+7] == 'u' {
+			// a surrogate pair (\uD83D\uDE00) spells one character beyond the basic plane
+			if low, err := strconv.ParseUint(input[i+8:i+12], 16, 32); err == nil && low >= 0xDC00 && low <= 0xDFFF {
+				out = utf8.AppendRune(out, rune(0x10000+(code-0xD800)<<10+(low-0xDC00)))
+				start = i + 12
+				i += 11
+				continue
+			}
+		}
 		out = utf8.AppendRune(out, rune(code))
 		start = i + 6
 		i += 5
